@@ -6,6 +6,7 @@ open Memento.Version Memento.VersionCache Driver
   reset
   dm NAME auto|HEX TOK REFS…   (re)define a memento function      -> index of its instance
   dp NAME TOK REFS…            (re)define a plain function
+  df NAME TOK                  bind NAME to a plain function of another package
   sv NAME VALTOK               bind a variable
   alias NAME TARGET            bind NAME to the object TARGET is bound to
   clone I | wrapper NAME       -> index of the new instance (or `none`)
@@ -33,6 +34,10 @@ def stepLine (s : St) (t : List String) : St × String :=
     match nat? n, nat? tok, refs.mapM nat? with
     | some n, some tok, some refs => ((step H s (.defPlain n tok refs)).1, "ok")
     | _, _, _ => (s, "bad-op")
+  | ["df", n, tok] =>
+    match nat? n, nat? tok with
+    | some n, some tok => ((step H s (.defForeign n tok)).1, "ok")
+    | _, _ => (s, "bad-op")
   | ["sv", n, v] =>
     match nat? n, nat? v with
     | some n, some v => ((step H s (.setVar n v)).1, "ok")
